@@ -5,7 +5,7 @@ From Coq Require Import ZArith List Bool Reals PrimFloat.
 From FT.lib Require Import Num Arr ArrLemmas NumArr.
 From FT.gen Require Import Common Interp2d Interp3d FteikCommon Ray2d Ray3d.
 From FT.proofs Require Import NumFLaws Ray2dProofs.
-From FT.proofs Require Ray3dProofs RaySafety2d RaySafety3d.
+From FT.proofs Require Ray3dProofs RaySafety2d RaySafety3d RaySafetyExtra.
 Import ListNotations.
 Open Scope Z_scope.
 
@@ -161,6 +161,56 @@ Theorem C15_vertices_on_grid_lines_2d :
        forall k : Z, 1 <= k < count -> RaySafety2d.on_line z x nz nx ray k.
 Proof. exact @RaySafety2d.ray2d_vertices_on_grid_lines. Qed.
 
+(* 3D: a shortened step ends, after the three clamps, exactly on a face of the current cell *)
+Theorem C15_shortened_step_ends_on_a_face_3d :
+  forall (z x y : arr R) (nz nx ny : Z),
+       SafetyInterp.axisn z nz ->
+       SafetyInterp.axisn x nx ->
+       SafetyInterp.axisn y ny ->
+       forall (p d l u : arr R) (fac : R) (p0 p1 p2 p3 : arr R),
+       Ray3dProofs.vec3 p ->
+       Ray3dProofs.vec3 d ->
+       Ray3dProofs.vec3 l ->
+       Ray3dProofs.vec3 u ->
+       (get 0 l [0%Z] <= get 0 p [0%Z] <= get 0 u [0%Z])%R ->
+       (get 0 l [1%Z] <= get 0 p [1%Z] <= get 0 u [1%Z])%R ->
+       (get 0 l [2%Z] <= get 0 p [2%Z] <= get 0 u [2%Z])%R ->
+       RaySafety2d.in_hull z nz (get 0%R l [0]) ->
+       RaySafety2d.in_hull z nz (get 0%R u [0]) ->
+       RaySafety2d.in_hull x nx (get 0%R l [1]) ->
+       RaySafety2d.in_hull x nx (get 0%R u [1]) ->
+       RaySafety2d.in_hull y ny (get 0%R l [2]) ->
+       RaySafety2d.in_hull y ny (get 0%R u [2]) ->
+       fac = shrink p d l u ->
+       (fac < 1)%R ->
+       p0 = amap2 nsub p (amap (fun e : R => nmul fac e) d) ->
+       p1 = set p0 [0] (pymin2 (pymax2 (get (nofZ 0) p0 [0]) (get (nofZ 0) z [0])) (get (nofZ 0) z [dim z 0 - 1])) ->
+       p2 = set p1 [1] (pymin2 (pymax2 (get (nofZ 0) p1 [1]) (get (nofZ 0) x [0])) (get (nofZ 0) x [dim x 0 - 1])) ->
+       p3 = set p2 [2] (pymin2 (pymax2 (get (nofZ 0) p2 [2]) (get (nofZ 0) y [0])) (get (nofZ 0) y [dim y 0 - 1])) ->
+       (0 <= fac)%R /\
+       ((get 0%R p3 [0] = get 0%R l [0] \/ get 0%R p3 [0] = get 0%R u [0]) \/
+        (get 0%R p3 [1] = get 0%R l [1] \/ get 0%R p3 [1] = get 0%R u [1]) \/
+        get 0%R p3 [2] = get 0%R l [2] \/ get 0%R p3 [2] = get 0%R u [2]).
+Proof. exact @RaySafetyExtra.vertex_on_grid_plane_3d. Qed.
+
+(* 3D whole ray, magnetism included: every interior vertex has a coordinate that is exactly an axis node (lies on a grid plane) *)
+Theorem C15_vertices_on_grid_planes_3d :
+  forall (z x y zgrad xgrad ygrad : arr R) (nz nx ny : Z),
+       SafetyInterp.axisn z nz ->
+       SafetyInterp.axisn x nx ->
+       SafetyInterp.axisn y ny ->
+       1 <= nz ->
+       1 <= nx ->
+       1 <= ny ->
+       RaySafety2d.axis_hull z nz ->
+       RaySafety2d.axis_hull x nx ->
+       RaySafety2d.axis_hull y ny ->
+       forall (fuel : nat) (zend xend yend zsrc xsrc ysrc stepsize : R) (max_step : Z) (ray : arr R) (count : Z),
+       1 <= max_step ->
+       u_ray3d_core_v fuel z x y zgrad xgrad ygrad zend xend yend zsrc xsrc ysrc stepsize max_step true =
+       Ok (ray, count) -> forall k : Z, 1 <= k < count -> RaySafetyExtra.on_plane z x y nz nx ny ray k.
+Proof. exact @RaySafetyExtra.ray3d_vertices_on_grid_planes. Qed.
+
 Print Assumptions C15_terminates_2d.
 Print Assumptions C15_terminates_3d.
 Print Assumptions C15_terminates_either_mode_2d.
@@ -174,3 +224,5 @@ Print Assumptions C15_shrink_factor_attained.
 Print Assumptions C15_shrink_full_step_inside.
 Print Assumptions C15_shortened_step_ends_on_a_face.
 Print Assumptions C15_vertices_on_grid_lines_2d.
+Print Assumptions C15_shortened_step_ends_on_a_face_3d.
+Print Assumptions C15_vertices_on_grid_planes_3d.
